@@ -52,10 +52,11 @@ TIE = {
     'gen_dir': 'MalVerif/Py/GenModel',
     'gen_modules': MODULE_ORDER,
     'chain': ['MalVerif.Py.AbsModel', 'MalVerif.Py.TieModelAssets', 'MalVerif.Py.TieModelAssoc',
-              'MalVerif.Py.TieModelRemove', 'MalVerif.Py.TieModelAttach', 'MalVerif.Py.TieModelStep',
-              'MalVerif.PropsGen.C05'],
+              'MalVerif.Py.TieModelRemove', 'MalVerif.Py.TieModelRemoveAsset', 'MalVerif.Py.TieModelAttach',
+              'MalVerif.Py.TieModelStep', 'MalVerif.PropsGen.C05'],
     'needs': {'C05': ['MalVerif.Py.TieModelAssets', 'MalVerif.Py.TieModelAssoc', 'MalVerif.Py.TieModelRemove',
-                      'MalVerif.Py.TieModelAttach', 'MalVerif.Py.TieModelStep', 'MalVerif.PropsGen.C05']},
+                      'MalVerif.Py.TieModelRemoveAsset', 'MalVerif.Py.TieModelAttach', 'MalVerif.Py.TieModelStep',
+                      'MalVerif.PropsGen.C05']},
     'sources': {'C05': 'model.py: Model.add_asset, remove_asset, remove_asset_from_association, _validate_association, '
                        'add_association, remove_association, add_attacker, remove_attacker, get_asset_by_id, '
                        'get_asset_by_name, get_attacker_by_id, association_exists_between_assets, '
